@@ -54,10 +54,10 @@ pub fn fold(s: &str, unicode: bool) -> Vec<char> {
     }
 }
 
-/// the documented long-name character set
+/// the documented long-name character set (U+FFFF, the long-name padding value, is excluded: see finding D16)
 pub fn char_ok(c: char) -> bool {
     matches!(c,
-        'a'..='z' | 'A'..='Z' | '0'..='9' | '\u{80}'..='\u{FFFF}'
+        'a'..='z' | 'A'..='Z' | '0'..='9' | '\u{80}'..='\u{FFFE}'
         | '$' | '%' | '\'' | '-' | '_' | '@' | '~' | '`' | '!' | '(' | ')' | '{' | '}' | '.' | ' ' | '+' | ','
         | ';' | '=' | '[' | ']' | '^' | '#' | '&')
 }
